@@ -65,7 +65,19 @@ def r19_2_3(chk, P):
             chk.ob('R19.2', key, f'{nm}#{calls_same.index(c)}', ok and same_var, F.where(c), f'{st} {det}')
         # R19.3 staged flags
         if is_cross:
-            stages = [('init', k2.is_call_any(['_ov_initset', '_ov_initprime'])), ('collect', k2.is_call('_ov_getlap')),
+            # bringing a handle to the decode-ready, primed state = fetching packets for it: the calls of the two helpers, or --
+            # when they are inlined -- the packet fetch itself; the later stages are not counted as "init" although they fetch too
+            fetch = k2.event(P, k2.s_call(['_fetch_and_process_packet']), 'may')
+            later = k2.is_call_any(['_ov_getlap', 'vorbis_synthesis_lapout', '_ov_splice'])
+
+            def is_init(A, env, e, fetch=fetch, later=later):
+                nd = A.ex[e]
+                if nd['k'] == 'bin' and nd['op'] in ('==', '!=', '<', '>=') and any(
+                        A.ex[A.F.strip_casts(x)].get('field') == 'ready_state' for x in nd['c']) and any(
+                        common.const_val(A.F, x) == 4 for x in nd['c']):
+                    return True         # the inlined form: the loop that fetches until the handle is decode-ready tests this
+                return fetch(A, env, e) and not later(A, env, e)
+            stages = [('init', is_init), ('collect', k2.is_call('_ov_getlap')),
                       ('lapout', k2.is_call('vorbis_synthesis_lapout')), ('splice', k2.is_call('_ov_splice'))]
         else:
             def is_seek(A, env, e):
